@@ -495,13 +495,13 @@ def mirroredLiterals : List Check := [
     [("==", 33), ("==", 40), ("==", 91), ("==", 91), ("==", 91), (">", 1), (">", 998), (">", 999), ("arg:Advance", 1), ("arg:Advance", 1)]
     "GM.Inl.parseLink / parseLinkClose / linkShortcut (Model/InlinesParsers.lean:360-430)",
   litsAre "parser" "linkParser.parseReferenceLink"
-    [("==", 1), (">", 999), ("arg:Advance", 1), ("arg:At", 0), ("arg:FindClosure", 91), ("arg:FindClosure", 93)]
+    [("==", 0), ("==", 1), (">", 999), ("arg:Advance", 1), ("arg:At", 0), ("arg:FindClosure", 91), ("arg:FindClosure", 93)]
     "GM.Inl.parseReferenceLink (Model/InlinesParsers.lean:330-350)",
   litsAre "parser" "linkParser.parseLink"
-    [("==", 41), ("==", 41), ("==", 41), ("arg:Advance", 1), ("arg:Advance", 1), ("arg:Advance", 1), ("arg:Advance", 1)]
+    [("==", 0), ("==", 41), ("==", 41), ("==", 41), ("arg:Advance", 1), ("arg:Advance", 1), ("arg:Advance", 1), ("arg:Advance", 1)]
     "GM.Inl.parseInlineLink (Model/InlinesParsers.lean:290-330)",
   litsAre "parser" "parseLinkDestination"
-    [("!=", 0), ("<", 0), ("==", 40), ("==", 41), ("==", 60), ("==", 62), ("==", 92), ("==", 92), ("slice-lo", 1)]
+    [("!=", 0), ("<", 0), ("==", 40), ("==", 41), ("==", 60), ("==", 60), ("==", 62), ("==", 92), ("==", 92), (">", 0), ("slice-lo", 1)]
     "GM.Inl.destPlain / parseLinkDestination (Model/InlinesParsers.lean:230-265)",
   litsAre "parser" "parseLinkTitle"
     [("!=", 34), ("!=", 39), ("!=", 40), ("==", 1), ("==", 40), ("arg:Advance", 1), ("arg:At", 0)]
